@@ -62,8 +62,15 @@ _Edge = z3.Datatype("Edge")
 _Edge.declare("Edge", ("f_label", EdgeLabel), ("f_nodes", SeqNode), ("f_id", Id), ("f_persist_id", z3.BoolSort()))
 Edge = _Edge.create()
 
-DATA = {"NodeLabel": NodeLabel, "EdgeLabel": EdgeLabel, "Node": Node, "Edge": Edge, "Id": Id}
+SeqEdge = seq_sort(Edge)
+_RuleV = z3.Datatype("RuleV")      # read-only view of an HRGRule: its lhs and the edges / nodes / externals of its rhs
+_RuleV.declare("RuleV", ("f_lhs", EdgeLabel), ("f_edges", SeqEdge), ("f_nodes", SeqNode), ("f_ext", SeqNode))
+RuleV = _RuleV.create()
+
+DATA = {"RuleV": RuleV, "RhsV": RuleV, "NodeLabel": NodeLabel, "EdgeLabel": EdgeLabel, "Node": Node, "Edge": Edge, "Id": Id}
 DATA_FIELDS = {
+    "RuleV": [("lhs", "EdgeLabel")],
+    "RhsV": [("ext", ("seq", "Node"))],
     "NodeLabel": [("name", "str")],
     "EdgeLabel": [("name", "str"), ("node_labels", ("seq", "NodeLabel")), ("is_terminal", "bool")],
     "Node": [("label", "NodeLabel"), ("id", "Id"), ("persist_id", "bool")],
@@ -74,7 +81,7 @@ DATA_FIELDS = {
 # 'int' 'bool' 'str' 'Id' 'NodeLabel' 'EdgeLabel' 'Node' 'Edge' 'PyVal' 'Domain' 'Factor' 'none'
 # ('seq', T)  ('dict', K, V)  ('set', T)  ('obj', 'Graph')  ('list', T) (mutable list of T)
 
-BASE_SORTS = {"int": z3.IntSort(), "bool": z3.BoolSort(), "str": Str, "Id": Id, "PyVal": PyVal,
+BASE_SORTS = {"RuleV": RuleV, "RhsV": RuleV, "int": z3.IntSort(), "bool": z3.BoolSort(), "str": Str, "Id": Id, "PyVal": PyVal,
               "NodeLabel": NodeLabel, "EdgeLabel": EdgeLabel, "Node": Node, "Edge": Edge,
               "Domain": DomainRef, "Factor": FactorRef}
 
@@ -129,10 +136,13 @@ fac_domains = z3.Function("Factor.domains", FactorRef, SeqDomain)
 dom_size = z3.Function("Domain.size", DomainRef, z3.IntSort())
 # attributes / nullary methods of opaque objects: (type, name) -> (result type, term builder)
 OPAQUE_ATTRS = {
+    ("RuleV", "rhs"): ("RhsV", lambda t: t),
     ("Factor", "domains"): (("seq", "Domain"), lambda t: fac_domains(t)),
     ("Factor", "arity"): ("int", lambda t: SeqDomain.len(fac_domains(t))),
 }
 OPAQUE_METHODS = {
+    ("RhsV", "edges"): (("seq", "Edge"), lambda t: RuleV.f_edges(t)),
+    ("RhsV", "nodes"): (("seq", "Node"), lambda t: RuleV.f_nodes(t)),
     ("Domain", "size"): ("int", lambda t: dom_size(t)),
 }
 
